@@ -792,6 +792,14 @@ def mask_select_nd(a, mask):
 def mask_select_axis0(a, mask, rest=()):
     e = cur()
     mf = mask.snapshot_fn()
+    # concrete mask over a concrete length: plain selection (used by the CPython cross-check and by concrete sub-computations)
+    if isinstance(a.shape[0], int):
+        mv = [mf((i,)) for i in range(a.shape[0])]
+        if all(isinstance(v, bool) for v in mv):
+            keep = [i for i, v in enumerate(mv) if v]
+            f0 = a.snapshot_fn()
+            r0 = Arr((len(keep),) + tuple(a.shape[1:]), lambda idx: f0((keep[idx[0]] if isinstance(idx[0], int) else table_lookup({(t,): k for t, k in enumerate(keep)}, (idx[0],)),) + tuple(idx[1:])), dtype=a.kind)
+            return r0
     # D6 is functional: the same array selected by a pointwise-equal mask gives the same result, so an existing
     # CompressInfo is reused when the masks are provably equal (lets contract text name "the filtered diagram")
     info = None
@@ -997,11 +1005,34 @@ def _store_view(view, value, row_cond=None, compress_mask=None):
         if compress_mask is not None:
             info = value.compress
             if info is None:
-                raise Unsupported("mask store of a non-compressed array value")
-            vf = value.snapshot_fn()
+                # concrete mask (concrete mode): ranks are computed directly
+                n0 = compress_mask.shape[0]
+                if isinstance(n0, int):
+                    cm = compress_mask.snapshot_fn()
+                    mv = [cm((i,)) for i in range(n0)]
+                    if all(isinstance(v, bool) for v in mv):
+                        ranks, c = {}, 0
+                        for i, v in enumerate(mv):
+                            if v:
+                                ranks[(i,)] = c
+                                c += 1
+                        vf0 = value.snapshot_fn()
 
-            def val_at(vidx, vf=vf, info=info):
-                return vf(bidx(value.shape, nd, (info.rank_of(vidx[0]),) + tuple(vidx[1:])))
+                        def val_at(vidx, vf0=vf0, ranks=ranks):
+                            r = ranks.get((vidx[0],) if isinstance(vidx[0], int) else None)
+                            if r is None:
+                                return 0.0
+                            return vf0(bidx(value.shape, nd, (r,) + tuple(vidx[1:])))
+                        info = "concrete"
+            if info is None:
+                raise Unsupported("mask store of a non-compressed array value")
+            if info == "concrete":
+                pass
+            else:
+                vf = value.snapshot_fn()
+
+                def val_at(vidx, vf=vf, info=info):
+                    return vf(bidx(value.shape, nd, (info.rank_of(vidx[0]),) + tuple(vidx[1:])))
         else:
             broadcast_shapes(view.shape, value.shape)
             vf = value.snapshot_fn()
